@@ -28,7 +28,19 @@ FOCUS4 = ("In this round look in particular at what only shows over TIME or at S
           "disagree only in a corner, an argument combination in which one option silently overrides another, error "
           "handling that leaves something half-done, and numerical corner cases (ties, signed zeros, exactly "
           "representable vs. not, values at the limits of float32).")
-FOCUS = FOCUS4 if (len(sys.argv) > 3 and sys.argv[3] == "4") else FOCUS3
+FOCUS5 = ("In this round look in particular at changes whose result still LOOKS valid (right shape, right dtype, finite, "
+          "in range) but comes from the wrong place: the wrong row, coordinate, axis, emitter, field or cell; a "
+          "transposition or an axis mix-up that is invisible when the configuration is SYMMETRIC or UNIFORM (a constant "
+          "x0, square dims, equal ranges in every dimension, one emitter, batch size equal to the dimension, all "
+          "objectives equal, bounds symmetric around 0) and shows only with an asymmetric one; a constant or "
+          "coefficient of a formula changed slightly (a 2 that becomes a 3, `n` for `n + 1`, a default derived from "
+          "another argument); shared helper code (`ribs/_utils.py`, `_transforms.py`, `_array_store.py`, "
+          "`_archive_base.py`) changed in a way that matters for only ONE of the archive types, entry points or "
+          "argument combinations that go through it; a NON-DEFAULT constructor option that is rarely set (look at every "
+          "keyword of the constructors involved and pick those no example uses); and behaviour right after an "
+          "unusual but legal first call (querying before anything was added, a batch of size 1 or 0, a first call with "
+          "every candidate rejected).")
+FOCUS = {"4": FOCUS4, "5": FOCUS5}.get(sys.argv[3] if len(sys.argv) > 3 else "", FOCUS3)
 print(f"""You are testing how well a semantic property of the Python library pyribs (quality-diversity optimization; package `ribs`) is protected against regressions. You have your own scratch git worktree of the repository at {wt} (work ONLY there and in {wt}_out; do not read or touch /repo, /verif or any other directory outside {wt}, {wt}_out and the Python environment). Run Python with `PYTHONPATH={wt} /venv/bin/python` so that your modified copy of `ribs` is imported (check `ribs.__file__`). NEVER use `git stash` (it is shared between worktrees): use `git diff > file`, `git apply`, `git apply -R`, `git checkout -- .`.
 
 THE PROPERTY ({pid}: {p['title']}):
